@@ -583,6 +583,91 @@ pub proof fn lemma_eq_iff(a: int, b: int)
     }
 }
 
+/// (x^a)^b == x^(a*b)
+proof fn lemma_powm_pow(x: int, a: nat, b: nat)
+    requires 0 <= x < P
+    ensures powm(powm(x, a), b) == powm(x, a * b)
+    decreases b
+{
+    lemma_powm_range(x, a);
+    if b == 0 {
+        reveal_with_fuel(powm, 1);
+        assert(a * 0 == 0);
+    } else {
+        lemma_powm_pow(x, a, (b - 1) as nat);
+        reveal_with_fuel(powm, 1);
+        lemma_powm_add(x, a, a * ((b - 1) as nat));
+        assert(a + a * ((b - 1) as nat) == a * b) by (nonlinear_arith) requires b >= 1;
+    }
+}
+
+/// one step of right-to-left square-and-multiply: with p = 2 p' + bit,
+/// r * b^p == (r * b^bit) * (b^2)^p'
+proof fn lemma_vartime_step(r: int, b: int, p: nat, bit: nat)
+    requires 0 <= r < P, 0 <= b < P, bit <= 1, p % 2 == bit
+    ensures (r * powm(b, p)) % P == (((r * powm(b, bit)) % P) * powm((b * b) % P, p / 2)) % P
+{
+    let h = p / 2;
+    assert(p == 2 * h + bit);
+    lemma_powm_one(b);
+    reveal_with_fuel(powm, 3);
+    lemma_small_mod(b as nat, P as nat);
+    // (b*b % P) == powm(b, 2)
+    assert(powm(b, 2) == (b * ((b * 1) % P)) % P);
+    lemma_mul_mod_noop_right(b, b, P);
+    lemma_powm_pow(b, 2, h);
+    lemma_powm_add(b, bit, 2 * h);
+    // r * (b^bit * b^(2h) % P) % P == ((r * b^bit) % P * b^(2h)) % P
+    let x1 = powm(b, bit);
+    let x2 = powm(b, 2 * h);
+    assert(bit + 2 * h == p);
+    lemma_mul_mod_noop_right(r, x1 * x2, P);
+    lemma_mul_mod_noop_left(r * x1, x2, P);
+    assert(r * (x1 * x2) == (r * x1) * x2) by (nonlinear_arith);
+}
+
+impl BaseElement {
+    /// FieldElement::exp_vartime (generic default method, instantiated for the 62-bit field: PositiveInteger = u64)
+    //@@ source math/src/field/traits.rs
+    //@@ extract anchor="fn exp_vartime(self, power: Self::PositiveInteger) -> Self"
+    //@@ rewrite "Self::PositiveInteger::from(0u32)" => "0u64"
+    //@@ rewrite "Self::PositiveInteger::from(1u32)" => "1u64"
+    //@@ rewrite "Self::ONE" => "Self::one()"
+    //@@ rewrite "Self::ZERO" => "Self::zero()"
+    //@@ rewrite "b == Self::zero()" => "b.eq(&Self::zero())"
+    //@@ rewrite "r *= b;" => "r = r * b;"
+    //@@ rewrite "p >>= int_one;" => "p = p >> int_one;"
+    //@@ before "while p > int_zero"
+    //@@|        let ghost x = v(self);
+    //@@|        proof { lemma_v_range(self); reveal_with_fuel(powm, 1); lemma_powm_range(x, power as nat); lemma_small_mod(powm(x, power as nat) as nat, P as nat); }
+    //@@ loop 1
+    //@@|            invariant wf(r), wf(b), x == v(self), 0 <= x < P, int_one == 1, int_zero == 0,
+    //@@|                (v(r) * powm(v(b), p as nat)) % P == powm(x, power as nat),
+    //@@|            decreases p
+    //@@ before "if p & int_one == int_one"
+    //@@|            let ghost (r0, b0, p0) = (r, b, p);
+    //@@|            proof {
+    //@@|                lemma_v_range(r); lemma_v_range(b);
+    //@@|                assert(p & 1 == p % 2) by (bit_vector);
+    //@@|                assert(p >> 1 == p / 2) by (bit_vector);
+    //@@|                lemma_vartime_step(v(r), v(b), p as nat, (p % 2) as nat);
+    //@@|                lemma_mul_val(r, b);
+    //@@|                lemma_powm_one(v(b));
+    //@@|                reveal_with_fuel(powm, 1);
+    //@@|                lemma_small_mod(v(r) as nat, P as nat);
+    //@@|            }
+    //@@ after "b = b.square(); }"
+    //@@|        proof { lemma_v_range(r); reveal_with_fuel(powm, 1); lemma_small_mod(v(r) as nat, P as nat); }
+    pub fn exp_vartime(self, power: u64) -> (res: Self)
+        requires wf(self)
+        ensures wf(res), v(res) == powm(v(self), power as nat)
+    {
+        hide(redc);
+        proof { lemma_consts(); if power > 0 { lemma_powm_zero_base(power as nat); } lemma_v_range(self); reveal_with_fuel(powm, 1); }
+        /*@@body*/
+    }
+}
+
 /// redc is injective on [0, P)
 pub proof fn lemma_redc_injective(a: int, b: int)
     requires 0 <= a < P, 0 <= b < P, redc(a) == redc(b)
